@@ -19,6 +19,24 @@ def suffix_match(d, pat):
     return d == pat or d.endswith("." + pat)
 
 
+_SWAP = {ast.Lt: ast.Gt, ast.Gt: ast.Lt, ast.LtE: ast.GtE, ast.GtE: ast.LtE}
+_COMPL = {ast.Lt: ast.GtE, ast.GtE: ast.Lt, ast.Gt: ast.LtE, ast.LtE: ast.Gt}
+
+
+def _order_spellings(t, holds):
+    """all spellings of an ordering comparison that holds (or does not hold): `a < b` == `b > a`; when it does not hold also
+    the complement `a >= b` / `b <= a` (exact for the totally ordered numbers these guards compare: counts, lengths, stamps;
+    not for NaN, which none of the rules using facts() are about)"""
+    out = {src(t)} if holds else set()
+    if isinstance(t, ast.Compare) and len(t.ops) == 1 and type(t.ops[0]) in _SWAP:
+        a, b, op = t.left, t.comparators[0], type(t.ops[0])
+        if not holds:
+            op = _COMPL[op]
+        out.add(src(ast.Compare(left=a, ops=[op()], comparators=[b])))
+        out.add(src(ast.Compare(left=b, ops=[_SWAP[op]()], comparators=[a])))
+    return out
+
+
 class _FakeIf:
     def __init__(self, real, test):
         self.test = test
@@ -77,8 +95,20 @@ class FuncView:
         out = []
         for n in self.cfg.nodes:
             for x in self.cfg.walk_node(n):
-                if isinstance(x, ast.Call) and suffix_match(call_name(x), pat):
-                    if where is None or where(n, x):
+                if isinstance(x, ast.Call):
+                    hit = suffix_match(call_name(x), pat)
+                    root = x.func.value if isinstance(x.func, ast.Attribute) else None
+                    while isinstance(root, ast.Attribute):
+                        root = root.value
+                    if not hit and isinstance(root, ast.Name) and root.id not in ("self", "cls"):
+                        # the receiver is a local: match on what it holds (`connector = self.connector; connector.reopen()`)
+                        try:
+                            v = self.sym(x.func.value, n)
+                            if dotted(v) and dotted(v) != dotted(x.func.value):
+                                hit = suffix_match(dotted(v) + "." + x.func.attr, pat)
+                        except Exception:
+                            hit = False
+                    if hit and (where is None or where(n, x)):
                         out.append((n, x))
         return out
 
@@ -198,12 +228,13 @@ class FuncView:
                 for v in t.values:
                     atoms(v, False)
             elif holds:
-                out.add(src(t))
+                out.update(_order_spellings(t, True))
             else:
                 try:
                     out.add(src(normalize._BoolNF().visit(normalize._negate(ast.parse(ast.unparse(t), mode="eval").body))))
                 except Exception:
                     pass
+                out.update(_order_spellings(t, False))
         for n in self.cfg.nodes:
             if n.kind != "test" or n.id == target.id:
                 continue
